@@ -221,6 +221,8 @@ TAILMAPS = {}     # ref tuple -> {tail key: (real tail items, model map, length)
 def set_tailmaps(emitted):
     TAILMAPS.clear()
     for em in emitted:
+        if em.get('sec') != 'tail':
+            continue
         real = ci.chain_to_real(em['t'])
         TAILMAPS.setdefault(tuple(em['ref']), {})[ci.key(em['t'])] = (real, em['map'], len(em['t']))
 
